@@ -468,7 +468,7 @@ class MappingProperty:
         while size >= 1:
             for start in range(0, len(lines), size):
                 doc = "\n".join(lines[:start] + lines[start + size:])
-                if doc != case["doc"] and doc.strip() and not reader.Doc(doc).has_error():
+                if doc != case["doc"] and doc.strip() and not reader.Doc(doc).has_error() and not reader.EMPTY_LET.search(doc):
                     c = dict(case)
                     c["doc"] = doc
                     yield c
